@@ -27,6 +27,8 @@ fn table_for(ctx: &mut Ctx, colj: &J) -> Option<String> {
     let cols = vec![Column::build("K").primary_key().int16(), j::to_col(colj)];
     match p.create_table(name.as_str(), cols) {
         Ok(()) => {
+            // a twin that never receives a row (it has no stream): statements on it are checked all the same
+            let _ = p.create_table(format!("{}F", name), vec![Column::build("K").primary_key().int16(), j::to_col(colj)]);
             ctx.tables.insert(key, (name.clone(), None));
             Some(name)
         }
@@ -117,6 +119,18 @@ fn run_case(ctx: &mut Ctx, c: &J, n: u64) -> Outcome {
         return Outcome { viol: Some(("valid-insert", format!("insert_rows {} the value; specification says {}, is_valid_value says {}", if ok { "accepted" } else { "refused" }, want, got))), class };
     }
     let mut viol = None;
+    {
+        // the same assignment on the never-populated twin: values are checked whether or not a row matches
+        let fresh = format!("{}F", t);
+        match catch_unwind(AssertUnwindSafe(|| p.update_rows(Update::table(fresh.as_str()).set("C", v.clone())))) {
+            Err(_) => return Outcome { viol: Some(("valid-panic", "update_rows on an empty table panicked".into())), class },
+            Ok(r) => {
+                if r.is_ok() != ok {
+                    return Outcome { viol: Some(("valid-update", format!("update_rows on a table that never held a row {} a value insert_rows {}", if r.is_ok() { "accepted" } else { "refused" }, if ok { "accepts" } else { "refuses" }))), class };
+                }
+            }
+        }
+    }
     if ok {
         let upd = catch_unwind(AssertUnwindSafe(|| p.update_rows(Update::table(t.as_str()).set("C", v.clone()).with(Expr::col("K").eq(Expr::integer(1))))));
         match upd {
